@@ -4,13 +4,15 @@ from ..contracts_api import ContractDB
 
 def build_db():
     db = ContractDB()
-    from . import render, html, attrs, children, helpers, tagify
+    from . import render, html, attrs, children, helpers, tagify, hooks, document
     render.register(db)
     html.register(db)
     attrs.register(db)
     children.register(db)
     helpers.register(db)
     tagify.register(db)
+    hooks.register(db)
+    document.register(db)
     return db
 
 
@@ -20,6 +22,9 @@ def extra_lemmas(ctx):
     import os
     have_attrfacts = os.path.exists(os.path.join(os.path.dirname(os.path.dirname(os.path.abspath(__file__))), "lean", "HV", "AttrFacts.lean"))
     out = [
+        Lemma("L_underscore_noop", [("s", "Str")], "implies(not contains(s, '_'), replaceAll(s, '_', '-') == s)",
+              "by cases h : containsStr s ([95] : Str) <;> simp_all [implies, replaceAll_single_noop]",
+              why="a name without underscores is its own normalisation", trigger="replaceAll(s, '_', '-')"),
         Lemma("L_escT_space", [], "escT(' ') == ' ' and escA(' ') == ' '", "by decide",
               why="a space is not a key of either escape table (decided on this run's tables)"),
     ]
@@ -31,7 +36,7 @@ def extra_lemmas(ctx):
             Lemma("L_flat_atoms", [("l", "ChildList")], "allAtomChildren(flatC(l))", "by simpa using flatC_atoms l", imports=("HV.C14b",),
                   why="the flattening contains no None and no nested list (allAtoms_flatC)"),
             Lemma("L_nodes_ofNodes_any", [("l", "NodeList")], "nodes(ofNodes(l)) == l and not bad(ofNodes(l))",
-                  "by simp [(C14_nodes_ofNodes l).1, (C14_nodes_ofNodes l).2]", imports=("HV.C14",),
+                  "by simp [(C14_nodes_ofNodes l).1, (C14_nodes_ofNodes l).2]", imports=("HV.C14",), trigger="ofNodes(l)",
                   why="a TagList returned by tagify() is spliced unchanged (stored nodes re-normalise to themselves)"),
             Lemma("L_nodes_taglist_first", [("l", "NodeList"), ("r", "ChildList")],
                   "nodes(CCons(CSeq(2, ofNodes(l)), r)) == nappend(l, nodes(r)) and bad(CCons(CSeq(2, ofNodes(l)), r)) == bad(r)",
@@ -40,6 +45,22 @@ def extra_lemmas(ctx):
                   "nodes(cappend(r, CCons(CSeq(2, ofNodes(l)), CNil()))) == nappend(nodes(r), l) and bad(cappend(r, CCons(CSeq(2, ofNodes(l)), CNil()))) == bad(r)",
                   "by\n  have hn : nodes .CNil = .NNil := by simp [nodes, C14_flat_nil, mapConvStep_nil, toNodes_nil]\n  have hb : bad .CNil = false := by simp [bad, C14_flat_nil, anyBadAtom_nil]\n  simp [C14_nodes_append, C14_bad_append, C14_nodes_taglist_child, bad_cons_seq, (C14_nodes_ofNodes l).2, nappend_nil, hn, hb]", imports=("HV.C14",),
                   why="a TagList passed as the last child is spliced unchanged"),
+        ]
+    if os.path.exists(os.path.join(os.path.dirname(os.path.dirname(os.path.abspath(__file__))), "lean", "HV", "C11.lean")):
+        out += [
+            Lemma("L_first_is_head", [("l", "NodeList")], "implies(hasHead(l), isHeadTag(firstHead(l)))", "by have h := first_is_head l; cases hh : hasHead l <;> simp_all [implies]",
+                  imports=("HV.C11",), trigger="firstHead(l)", why="the first <head> child found by the search is a <head> tag"),
+            Lemma("L_replace_first_same", [("l", "NodeList")], "replaceFirstHead(l, firstHead(l)) == l", "by simpa using replace_first_same l", imports=("HV.C11",), trigger="replaceFirstHead(l, firstHead(l))",
+                  why="replacing the first <head> child by (a copy of) itself changes nothing"),
+            Lemma("L_nodes_depTagChildren", [("ds", "DepList"), ("lp", "OptStr"), ("iv", "Bool")],
+                  "nodes(depTagChildren(ds, lp, iv)) == depTagsAll(ds, lp, iv) and not bad(depTagChildren(ds, lp, iv))",
+                  "by simp [nodes_depTagChildren env ds lp iv, bad_depTagChildren env ds lp iv]", imports=("HV.C11",), trigger="depTagChildren(ds, lp, iv)",
+                  why="extending the head with one TagList per dependency stores each dependency's markup once, in order"),
+            Lemma("L_nodes_one", [("n", "Node")], "nodes(CCons(CNode(n), CNil())) == NCons(n, NNil()) and not bad(CCons(CNode(n), CNil()))",
+                  "by simp [nodes_one n, bad_one n]", imports=("HV.C11",), trigger="CCons(CNode(n), CNil())", why="a single tag argument is stored as itself"),
+            Lemma("L_nappend_assoc", [("a", "NodeList"), ("b", "NodeList"), ("c", "NodeList")], "nappend(nappend(a, b), c) == nappend(a, nappend(b, c))",
+                  "by simp [nappend_assoc a b c]", imports=("HV.C14",), trigger="nappend(nappend(a, b), c)", why="list append is associative"),
+            Lemma("L_nappend_nil", [("a", "NodeList")], "nappend(a, NNil()) == a", "by simp [nappend_nil a]", imports=("HV.C14",), trigger="nappend(a, NNil())", why="appending the empty list"),
         ]
     if not have_attrfacts:
         return out
